@@ -79,7 +79,7 @@ func (d *Duration) WriteTo(w io.Writer) (n int64, err error) {
 	var period time.Duration
 	if minutes := d.Duration / time.Minute; minutes <= 5 {
 		period = 0
-	} else if hours := d.Duration / time.Hour; hours <= 12 {
+	} else if hours := d.Duration / time.Hour; d.Duration <= 12*time.Hour {
 		period = minutes/5 - 1
 	} else if hours <= 24 {
 		const halfDays = 12 * time.Hour
